@@ -58,6 +58,12 @@ def rule_holders(ctx):
             if "Arc<boxcar::Vec<" in ty and str(c.get("by", "")).startswith("ByValue"):
                 ctx.violation("%s|capture %s|holder" % (b["path"], c.get("var") or c.get("name")), "%s:%d" % (b["loc"]["file"], b["loc"]["line"]),
                               "closure %s owns an `%s` (captured by value): one more live handle to an item stream than active_injectors subtracts" % (b["path"], ty))
+    # a holder that can be cloned duplicates its handle: strong_count sees the copy, the subtraction does not.  Injector is the
+    # one holder whose copies are meant to be counted.
+    for im in facts.crate("nucleo")["impls"]:
+        if im.get("trait") == "std::clone::Clone" and any(im.get("self_ty", "").split("<")[0] == h_ for h_ in ("Snapshot", "Nucleo", "worker::Worker")):
+            ctx.violation("%s|Clone|holder" % im["self_ty"].split("<")[0], im["self_ty"],
+                          "%s holds a handle to the item stream and implements Clone: every live copy that refers to the current stream is counted by active_injectors as an injector" % im["self_ty"])
     # statics holding one
     for k in facts.crate("nucleo")["consts"]:
         if k["kind"] == "static" and "boxcar::Vec" in (k.get("ty") or ""):
